@@ -424,3 +424,8 @@ impl CheckedSub for BigUint {
         }
     }
 }
+
+#[cfg(num_bigint_verif)]
+pub(super) fn verif_asm_sub(a: &mut [u64], b: &[u64], size: usize) -> (bool, usize) {
+    unsafe { schoolbook_sub_assign_x86_64(a.as_mut_ptr(), b.as_ptr(), size) }
+}
